@@ -15,6 +15,7 @@ use vmodel::engine::Fail;
 use vmodel::gen;
 use vmodel::*;
 
+mod extra;
 mod rng;
 use rng::TapeRng;
 
@@ -452,6 +453,7 @@ fn subchecks(ctx: &Ctx) -> Vec<SubCheck> {
     v.push(SubCheck::new("never-panic/radix-strings", 60_000, radix_total).tape(440));
     v.push(SubCheck::new("never-panic/random-bits", 60_000, random_total).tape(48));
     v.push(SubCheck::new("expected-panic/table", 40_000, expected_panics).tape(48));
+    v.extend(extra::subchecks(ctx));
     inherit(&mut v, "C02", (c02::spec().subchecks)(ctx));
     inherit(&mut v, "C03", (c03::spec().subchecks)(ctx));
     inherit(&mut v, "C04", (c04::spec().subchecks)(ctx));
